@@ -142,6 +142,10 @@ def seeded(selection):
             continue
         meta = json.load(open(meta_p))
         prop = meta["property"]
+        if meta.get("out_of_scope"):
+            # kept for the record: a change the check does not claim to see (reason in meta.json and DESIGN 11.13)
+            print(f"SEEDED {sid} [{prop}]: OUT-OF-SCOPE (not run)")
+            continue
         base = tempfile.mkdtemp(prefix="pgverif-seed-", dir=env.scratch_base())
         try:
             # a scratch copy of the whole repository tree (the patch may touch files outside src/)
